@@ -260,3 +260,45 @@ func verifC09_MultiStep() {
 		verifCover("rejected")
 	}
 }
+
+// verifC09_StepN: the MQTT byte limiter (AcquireNPermission, timeout 0): one packet of n bytes
+// from an arbitrary state with bytes <= L-1+maxPacket. Admitted iff the current period still
+// has a spare permit - whatever the size of the packet - so the admitted bytes of a period
+// exceed bytesRate by less than one packet.
+func verifC09_StepN() {
+	L := int(verifConcrete(verifInt("bytesRate", 1, int64(verifBound("maxBytes"))), int64(verifBound("maxBytes"))))
+	per := int64(verifConcrete(verifInt("period", 1, int64(verifBound("maxPeriod"))), int64(verifBound("maxPeriod"))))
+	maxPacket := int64(verifBound("maxPacket"))
+	p := NewPolicy(0, time.Duration(per), L)
+	horizon := int64(verifBound("horizon"))
+	t0 := verifInt("t0", 0, horizon)
+	c := verifInt("pre.cycle", 0, int64(verifBound("maxCycle")))
+	k := verifInt("pre.bytes", 0, int64(L)-1+maxPacket)
+	t := verifInt("now", 0, horizon)
+	verifAssume(t >= t0+c*per)
+	vMono = t
+	nowFunc = vNow
+	start := vNow()
+	verifSetField(&start, "ext", t0)
+	rl := &RateLimiter{policy: p, startTime: start, cycle: int(c), tokens: int(k)}
+	n := verifInt("packetBytes", 1, maxPacket)
+	ok, w := rl.AcquireNPermission(int(n))
+	delta := (t-t0)/per - c
+	tp := k - delta*int64(L)
+	if tp < 0 {
+		tp = 0
+	}
+	verifAssert(ok == (tp < int64(L)), "admitted-iff-the-period-has-a-spare-permit")
+	if ok {
+		verifAssert(w == 0, "timeout-zero-never-waits")
+		verifAssert(int64(rl.tokens) == tp+n, "post-state")
+		verifAssert(int64(rl.tokens) <= int64(L)-1+maxPacket, "bytes-exceed-bytesRate-by-less-than-one-packet")
+		verifCover("admitted")
+		if tp+n > int64(L) {
+			verifCover("packet-larger-than-the-remaining-budget-admitted")
+		}
+	} else {
+		verifAssert(int64(rl.tokens) == k && int64(rl.cycle) == c, "rejection-leaves-the-state-unchanged")
+		verifCover("rejected")
+	}
+}
